@@ -13,5 +13,7 @@ if ! cargo build --profile verif --offline --bins >target/setup.log 2>&1; then
     cargo build --profile verif --offline --bin "$b" >>target/setup.log 2>&1 || echo "setup: $b does not build (see harness/target/setup.log)"
   done
 fi
+# second build variant of C04 / C14 (no debug assertions, as shipped binaries are built)
+cargo build --profile verif-nodebug --offline --bin c04 --bin c14 >>target/setup.log 2>&1 || echo "setup: the nodebug variant of c04 / c14 does not build (see harness/target/setup.log)"
 tail -2 target/setup.log
 exit 0
